@@ -99,7 +99,7 @@ def class_of(e):
     return (e["f"], e.get("src", e.get("kind", "")), e.get("tgt", e.get("cat", "")), n, early, shape)
 
 
-OBSERVED = ("r", "st", "log", "elem", "inserted", "calls", "after")
+OBSERVED = ("r", "st", "log", "elem", "inserted", "calls", "after", "present")
 
 
 def corrupted(x):
